@@ -10,8 +10,12 @@ use crate::{
 use std::{
     cell::UnsafeCell,
     cmp::Ordering,
-    sync::atomic::{self, AtomicBool},
+    sync::atomic::{self},
 };
+#[cfg(orx_concurrent_iter_verif)]
+use crate::verif_shim::AtomicBool;
+#[cfg(not(orx_concurrent_iter_verif))]
+use std::sync::atomic::AtomicBool;
 
 /// A regular `Iter: Iterator` ascended to the concurrent programs with use of atomics.
 ///
